@@ -2,11 +2,11 @@
 C15 line protocol and observable-level monitor over `Model/ReconEq.lean` (see `harness/core/src/bin/sv-c15.rs`).
 
 Ops (texts are hex of UTF-8, `-` = empty):
-  ev <t>            ;; `<tok,..|-> <end|err|panic>`
-  val <t>           ;; `ok:<venc>` | `err` | `panic`
-  hash <t>          ;; `<call,..|->` | `panic`
+  ev <t>            ;; `evs=<tok,..|-> <end|err|panic>`
+  val <t>           ;; `val=ok:<venc>` | `val=err` | `val=panic`
+  hash <t>          ;; `calls=<call,..|->` | `calls=panic`
   pair <a> <b>      ;; `cmp=<0|1|panic> rcmp=.. heq=.. va=<ok|err|panic> vb=.. veq=<0|1|->`
-  keys <t1> .. <tn> ;; `<i>:<j>,..`   (monitor only)
+  keys <t1> .. <tn> ;; `entries=<i>:<j>,..`   (monitor only)
 Any op with a text outside the float fragment is answered `out-of-fragment` by harness and model alike.
 -/
 import SwimVerif.Model.ReconEq
@@ -44,12 +44,13 @@ def Term.tok : Term → String
 def joinOrDash (xs : List String) : String := if xs.isEmpty then "-" else ",".intercalate xs
 
 def evOut (inp : List Char) : String :=
-  joinOrDash ((events inp).1.map Event.tok) ++ " " ++ (events inp).2.tok
+  let e := events inp
+  "evs=" ++ joinOrDash (e.1.map Event.tok) ++ " " ++ e.2.tok
 
 def valOut (inp : List Char) : String :=
   match parseValue inp with
-  | some v => "ok:" ++ venc v
-  | none => "err"
+  | some v => "val=ok:" ++ venc v
+  | none => "val=err"
 
 def HTok.tok : HTok → String
   | .i n => "i" ++ toString n
@@ -59,14 +60,16 @@ def HTok.tok : HTok → String
   | .q f => "q" ++ (f.enc.drop 1).toString
   | .b bs => "b" ++ hexOfBytes bs
 
-def hashOut (inp : List Char) : String := joinOrDash ((hashCalls inp).map HTok.tok)
+def hashOut (inp : List Char) : String := "calls=" ++ joinOrDash ((hashCalls inp).map HTok.tok)
 
 def pairOut (a b : List Char) : String :=
-  let va := parseValue a
-  let vb := parseValue b
+  let ra := run a
+  let rb := run b
+  let va := parseOf ra
+  let vb := parseOf rb
   let st (v : Option Value) : String := if v.isSome then "ok" else "err"
-  "cmp=" ++ boolBit (compareRecon a b) ++ " rcmp=" ++ boolBit (compareRecon b a) ++
-  " heq=" ++ boolBit (hashCalls a == hashCalls b) ++ " va=" ++ st va ++ " vb=" ++ st vb ++
+  "cmp=" ++ boolBit (compareOf ra rb (a == b)) ++ " rcmp=" ++ boolBit (compareOf rb ra (b == a)) ++
+  " heq=" ++ boolBit (hashOf ra a == hashOf rb b) ++ " va=" ++ st va ++ " vb=" ++ st vb ++
   " veq=" ++ (match va, vb with
     | some x, some y => boolBit (veq x y)
     | _, _ => "-")
@@ -141,13 +144,13 @@ def pairVerdict (ha hb : String) (out : String) : Option String :=
   | _, _, _, _, _, _ => some "malformed-output"
 
 structure Mon where
-  /-- `val` answers of the current case: hex text ↦ observed result. -/
-  vals : List (String × String) := []
+  /-- `val` answers of the current case: hex text ↦ the value the implementation reported (`none` = not valid Recon). -/
+  vals : List (String × Option Value) := []
 
 /-- Parsed value of a key text as the implementation reported it in this case (`val` line), else the model's. -/
 def Mon.valueOf (m : Mon) (h : String) : Option Value :=
   match m.vals.lookup h with
-  | some r => (match resDec r with | some (.ok v) => some v | _ => none)
+  | some r => r
   | none => (charsOfHex h).bind parseValue
 
 /-- Should two key texts be one key? Equal values if both are valid Recon, else the same string. -/
@@ -164,9 +167,10 @@ def parseEntry (s : String) : Option (Nat × Nat) :=
 /-- `keys`: one entry per class of `sameKey`, holding the last value pushed for the class. -/
 def keysVerdict (m : Mon) (hs : List String) (out : String) : Option String :=
   if out == "out-of-fragment" then none
-  else if out == "panic" then some "panic"
+  else if out == "entries=panic" then some "panic"
+  else if !out.startsWith "entries=" then some "malformed-output"
   else
-    match (if out == "-" then some [] else (out.splitOn ",").mapM parseEntry) with
+    match (if out == "entries=-" then some [] else ((out.drop 8).toString.splitOn ",").mapM parseEntry) with
     | none => some "malformed-output"
     | some es =>
       let txt (i : Nat) : String := hs.getD i "?"
@@ -192,9 +196,11 @@ def keysVerdict (m : Mon) (hs : List String) (out : String) : Option String :=
 
 def Mon.step (m : Mon) (op out : String) : Mon × Option String :=
   match words op with
-  | ["val", h] => ({ m with vals := (h, out) :: m.vals }, if out == "panic" then some "panic" else none)
+  | ["val", h] =>
+    let v : Option Value := match resDec (out.drop 4).toString with | some (.ok v) => some v | _ => none
+    ({ m with vals := (h, v) :: m.vals }, if out == "val=panic" then some "panic" else none)
   | ["ev", _] => (m, if (words out).getLast? == some "panic" then some "panic" else none)
-  | ["hash", _] => (m, if out == "panic" then some "panic" else none)
+  | ["hash", _] => (m, if out == "calls=panic" then some "panic" else none)
   | ["pair", a, b] => (m, pairVerdict a b out)
   | "keys" :: hs => (m, keysVerdict m hs out)
   | _ => (m, none)
